@@ -53,6 +53,14 @@ func (s *kvStore) apply(ops []Operation) {
 	s.mu.Lock()
 	defer s.mu.Unlock()
 	for _, op := range ops {
+		if op.state == gossipStateRecovered {
+			// A recovered mark concerns one version of the key: it must not replace the
+			// entry of a newer operation that is still being gossiped.
+			if cur, ok := s.data[string(op.Key)]; ok &&
+				(!cur.Version.EqualTo(op.Version) || cur.Leaseholder != op.Leaseholder) {
+				continue
+			}
+		}
 		s.data[string(op.Key)] = op
 	}
 }
